@@ -843,6 +843,68 @@ func genAuth(repo, out string) error {
 		checks = true
 	}
 	fmt.Fprintf(&b, "/-- `CryptoSignAuthenticator.verifySignature` compares the opened message with the challenge issued\n    in this handshake (false: any validly signed 96-byte message is accepted) -/\ndef cryptosignChecksChallenge : Bool := %v\n\n", checks)
+	// key guard: the condition tested right after `key, err := cr.keyStore.AuthKey(...)` in the two
+	// challenge authenticators that compute with the key (a key store may answer (nil, nil)).
+	keyGuard := func(fset *token.FileSet, f *ast.File, recv string) (string, bool, error) {
+		fd := c09FindFunc(f, recv, "Authenticate")
+		if fd == nil || fd.Body == nil {
+			return "", false, fmt.Errorf("%s.Authenticate not found", recv)
+		}
+		var cond string
+		found := false
+		var walk func(list []ast.Stmt)
+		walk = func(list []ast.Stmt) {
+			for i, st := range list {
+				if as, ok := st.(*ast.AssignStmt); ok && len(as.Lhs) == 2 && len(as.Rhs) == 1 &&
+					c09Src(fset, as.Lhs[0]) == "key" && c09Src(fset, as.Lhs[1]) == "err" {
+					if ce, ok := as.Rhs[0].(*ast.CallExpr); ok && c09Src(fset, ce.Fun) == "cr.keyStore.AuthKey" {
+						if i+1 < len(list) {
+							if is, ok := list[i+1].(*ast.IfStmt); ok && is.Init == nil {
+								cond = c09Src(fset, is.Cond)
+								found = true
+							}
+						}
+					}
+				}
+				if found {
+					return
+				}
+				switch n := st.(type) {
+				case *ast.BlockStmt:
+					walk(n.List)
+				case *ast.IfStmt:
+					walk(n.Body.List)
+					if eb, ok := n.Else.(*ast.BlockStmt); ok {
+						walk(eb.List)
+					}
+				}
+			}
+		}
+		walk(fd.Body.List)
+		if !found {
+			return "", false, fmt.Errorf("%s.Authenticate: no `if` right after `key, err := cr.keyStore.AuthKey(...)`", recv)
+		}
+		switch strings.Join(strings.Fields(cond), " ") {
+		case "err != nil || len(key) == 0", "len(key) == 0 || err != nil":
+			return cond, true, nil
+		case "err != nil":
+			return cond, false, nil
+		}
+		return cond, false, fmt.Errorf("%s.Authenticate: key guard `%s` is neither `err != nil` nor `err != nil || len(key) == 0`: cannot decide whether an empty key is refused", recv, cond)
+	}
+	craGuard, craRefuses, err := keyGuard(fsetCR, fCR, "CRAuthenticator")
+	if err != nil {
+		return err
+	}
+	csGuard, csRefuses, err := keyGuard(fsetCS, fCS, "CryptoSignAuthenticator")
+	if err != nil {
+		return err
+	}
+	fmt.Fprintf(&b, "/-- the condition `CRAuthenticator.Authenticate` tests right after `cr.keyStore.AuthKey` (source text);\n    when it holds the response is checked against a throw-away random key -/\ndef craKeyGuard : String := %s\n\n", leanStr(craGuard))
+	fmt.Fprintf(&b, "/-- that condition includes `len(key) == 0`: a key store answer without a key (nil or empty, no error)\n    is treated like an error (false: the HMAC is computed under the empty key) -/\ndef craRefusesEmptyKey : Bool := %v\n\n", craRefuses)
+	fmt.Fprintf(&b, "/-- the condition `CryptoSignAuthenticator.Authenticate` tests right after `cr.keyStore.AuthKey`; when it\n    holds the authenticator returns an error before any CHALLENGE -/\ndef csKeyGuard : String := %s\n\n", leanStr(csGuard))
+	fmt.Fprintf(&b, "/-- that condition includes `len(key) == 0` (false: the signature is verified against the all-zero key) -/\ndef csRefusesEmptyKey : Bool := %v\n\n", csRefuses)
+
 	// length test
 	sigLen := int64(-1)
 	ast.Inspect(vfy.Body, func(x ast.Node) bool {
